@@ -427,6 +427,8 @@ class ApplicationJobs:
         # attributes
         self.planned_jobs: ApplicationJobs.PlannedJobs = jobs
         self.current_jobs: ApplicationJobs.CommandList = []
+        # True while a sequenced group is being triggered
+        self.triggering: bool = False
 
     # miscellaneous methods
     def __repr__(self):
@@ -507,7 +509,7 @@ class ApplicationJobs:
         """
         self.logger.trace(f'ApplicationJobs.in_progress: planned_jobs={self.planned_jobs}'
                           f' current_jobs={self.current_jobs}')
-        return len(self.planned_jobs) > 0 or len(self.current_jobs) > 0
+        return self.triggering or len(self.planned_jobs) > 0 or len(self.current_jobs) > 0
 
     def before(self) -> None:
         """ Special processing to be done before command sequences start.
@@ -520,6 +522,10 @@ class ApplicationJobs:
 
         :return: None
         """
+        # NOTE: a command that cannot be processed (e.g. no resource available) is failed through a forced event
+        #       that comes back immediately: the group being triggered must be completed first
+        if self.triggering:
+            return
         if not self.current_jobs and self.planned_jobs:
             # pop lower group from sequence
             sequence_number = self.pickup_logic(self.planned_jobs)
@@ -529,9 +535,13 @@ class ApplicationJobs:
             # trigger application jobs
             # do NOT use a list comprehension as pending requests will not be considered in instance load
             # process the jobs one by one and insert them in current_jobs asap
-            for command in group:
-                if self.process_job(command):
-                    self.current_jobs.append(command)
+            self.triggering = True
+            try:
+                for command in group:
+                    if self.process_job(command):
+                        self.current_jobs.append(command)
+            finally:
+                self.triggering = False
             self.logger.trace(f'ApplicationJobs.next: current_jobs={self.current_jobs}')
             # recursive call in the event where there's already nothing left to do
             self.next()
@@ -853,8 +863,10 @@ class ApplicationStartJobs(ApplicationJobs):
                 queued = True
             else:
                 self.logger.warn(f'ApplicationStartJobs.process_job: no resource available for {process.namespec}')
-                self.fail_command(command.process, '', time.monotonic(), 'No resource available')
+                # NOTE: the failure strategy is applied BEFORE the forced state is sent because the event comes back
+                #       immediately and may end the application jobs
                 self.process_failure(process)
+                self.fail_command(command.process, '', time.monotonic(), 'No resource available')
         # return True when the job is queued
         return queued
 
